@@ -31,6 +31,8 @@
 (* Tokens (tagged tuples, the JSON arrays written by the harness):         *)
 (*   <<"int",n>> <<"sym",s>> <<"path",s>> (dotted path h.a.b, one token)   *)
 (*   <<"str",s>> <<"bool",b>> <<"call",f,args>> (an s-expression call)     *)
+(*   <<"nil">> <<"chr",n>> <<"uint",s>> <<"flt",s>> (the other literals:     *)
+(*   nil, 'c', 5ULL, 1.5 / Inf; an int may be spelled 0x.. 0o.. 0b..)        *)
 (*   <<"block",toks>> (nested {..})   <<"op",name>>  (name "," = comma)    *)
 (*   <<"idx",toks>> ([..] after an operand)  <<"dot",".x">> (field access) *)
 (*   <<"semi">> <<"colon">> <<"kw",k>> (if else for break continue)        *)
@@ -43,7 +45,7 @@ MaxOf(S) == CHOOSE x \in S : \A y \in S : x >= y
 
 ---------------------------------------------------------------------------
 (* token classes *)
-AtomKinds == {"int", "sym", "path", "str", "bool", "call", "block"}
+AtomKinds == {"int", "sym", "path", "str", "bool", "call", "block", "nil", "chr", "uint", "flt"}
 AssignOps == {"=", ":=", "+=", "-="}
 CmpOps    == {"==", "!=", "<", "<=", ">", ">="}
 BinNames  == AssignOps \cup {","} \cup {"and", "or"} \cup CmpOps
@@ -60,9 +62,10 @@ MulNames    == {"*", "/", "mod"}
 SetNames    == {"=", ":="}
 PostKinds   == {"idx", "dot"}
 KwLabel     == {"kw", "label"}
+ArmStop     == {"kw", "label", "semi", "colon"}
 RightNames  == {"**", "and", "or"} \cup AssignOps     \* registered with Infixr / Assignment
 RightLevels == {10, 30, 65}
-LitKinds    == {"int", "sym", "str", "bool"}
+LitKinds    == {"int", "sym", "str", "bool", "nil", "chr", "uint", "flt"}
 NameKinds   == {"path", "dot", "op", "kw", "label"}
 DotPath     == {"dot", "path"}
 BinPrePost  == {"bin", "pre", "post"}
@@ -128,17 +131,34 @@ ExprEnd(toks, i) ==
               \/ IsSemi(toks[n+1])
               \/ (EndsOperand(toks[n]) /\ StartsOperand(toks[n+1]))})
 
+IsCtl(t) == IsKw(t, "break") \/ IsKw(t, "continue")
+
+(* break / continue: a following symbol is the label only when it stands alone; when an
+   operator or a postfix extends it (s += i, s[0] = 1, s++) it begins the next statement *)
+CtlEnd(toks, i) ==
+    IF i < Len(toks) /\ toks[i+1][1] = "sym" /\ ExprEnd(toks, i + 1) = i + 1 THEN i + 1 ELSE i
+
+(* an arm of if/else that starts at j: a block, or (without braces) one expression or one
+   break/continue statement; 0 = none *)
+ArmEnd(toks, j) ==
+    IF j > Len(toks) THEN 0
+    ELSE IF toks[j][1] = "block" THEN j
+    ELSE IF IsCtl(toks[j]) THEN CtlEnd(toks, j)
+    ELSE IF toks[j][1] \in ArmStop THEN 0
+    ELSE ExprEnd(toks, j)
+
 RECURSIVE IfEnd(_, _)
-IfEnd(toks, i) ==            \* toks[i] is `if`; 0 = not of the form if C {..} [else ..]
+IfEnd(toks, i) ==            \* toks[i] is `if`; 0 = not of the form if C ARM [else (ARM | if ..)]
     IF i + 1 > Len(toks) THEN 0
-    ELSE LET c == ExprEnd(toks, i + 1) IN
-         IF c + 1 > Len(toks) THEN 0
-         ELSE IF toks[c+1][1] # "block" THEN 0
-         ELSE IF c + 2 <= Len(toks) /\ IsKw(toks[c+2], "else")
-              THEN IF c + 3 > Len(toks) THEN 0
-                   ELSE IF IsKw(toks[c+3], "if") THEN IfEnd(toks, c + 3)
-                   ELSE IF toks[c+3][1] = "block" THEN c + 3 ELSE 0
-              ELSE c + 1
+    ELSE LET c == ExprEnd(toks, i + 1)
+             t == ArmEnd(toks, c + 1)
+         IN
+         IF t = 0 THEN 0
+         ELSE IF t + 1 <= Len(toks) /\ IsKw(toks[t+1], "else")
+              THEN IF t + 2 > Len(toks) THEN 0
+                   ELSE IF IsKw(toks[t+2], "if") THEN IfEnd(toks, t + 2)
+                   ELSE ArmEnd(toks, t + 2)
+              ELSE t
 
 ForEnd(toks, i) ==           \* toks[i] is `for`: the body is the next block token
     LET bs == {j \in (i+1)..Len(toks) : toks[j][1] = "block"}
@@ -150,8 +170,7 @@ StmtEnd(toks, i) ==
     ELSE IF IsKw(t, "for") THEN ForEnd(toks, i)
     ELSE IF t[1] = "label"
          THEN (IF i < Len(toks) /\ IsKw(toks[i+1], "for") THEN ForEnd(toks, i + 1) ELSE 0)
-    ELSE IF IsKw(t, "break") \/ IsKw(t, "continue")
-         THEN (IF i < Len(toks) /\ toks[i+1][1] = "sym" THEN i + 1 ELSE i)
+    ELSE IF IsCtl(t) THEN CtlEnd(toks, i)
     ELSE IF t[1] = "kw" THEN 0
     ELSE ExprEnd(toks, i)
 
@@ -180,13 +199,18 @@ ParseExpr(toks) ==
                    ELSE <<"fld", x, t[2]>>
               ELSE <<"pre", t[2], ParseExpr(SubSeq(toks, 2, n))>>
 
+CtlAst(s) == <<"ctl", s[1][2], IF Len(s) = 2 THEN s[2][2] ELSE "">>
+ArmAst(seg) == IF IsCtl(seg[1]) THEN CtlAst(seg) ELSE ParseExpr(seg)
+
 RECURSIVE ParseIf(_)
-ParseIf(s) ==                \* s = if C {..} [else ({..} | if ...)]
-    LET c == ExprEnd(s, 2) IN
-    <<"if", ParseExpr(SubSeq(s, 2, c)), <<"atom", s[c+1]>>,
-      IF Len(s) = c + 1 THEN NoneAst
-      ELSE IF IsKw(s[c+3], "if") THEN ParseIf(SubSeq(s, c + 3, Len(s)))
-      ELSE <<"atom", s[c+3]>> >>
+ParseIf(s) ==                \* s = if C ARM [else (ARM | if ...)]
+    LET c == ExprEnd(s, 2)
+        t == ArmEnd(s, c + 1)
+    IN
+    <<"if", ParseExpr(SubSeq(s, 2, c)), ArmAst(SubSeq(s, c + 1, t)),
+      IF Len(s) = t THEN NoneAst
+      ELSE IF IsKw(s[t+2], "if") THEN ParseIf(SubSeq(s, t + 2, Len(s)))
+      ELSE ArmAst(SubSeq(s, t + 2, Len(s))) >>
 
 ClauseOrNil(seg) == IF seg = <<>> THEN NilAst ELSE ParseExpr(seg)
 
@@ -208,8 +232,7 @@ ParseStmt(s) ==
     IF IsKw(s[1], "if") THEN ParseIf(s)
     ELSE IF IsKw(s[1], "for") THEN ParseFor("", SubSeq(s, 2, Len(s)))
     ELSE IF s[1][1] = "label" THEN ParseFor(s[1][2], SubSeq(s, 3, Len(s)))
-    ELSE IF IsKw(s[1], "break") \/ IsKw(s[1], "continue")
-         THEN <<"ctl", s[1][2], IF Len(s) = 2 THEN s[2][2] ELSE "">>
+    ELSE IF IsCtl(s[1]) THEN CtlAst(s)
     ELSE ParseExpr(s)
 
 RECURSIVE StmtsFrom(_, _)
@@ -294,7 +317,8 @@ RBP(name) == IF name \in RightNames THEN BP(name) - 1 ELSE BP(name)
 DevPath == "dotpath-stmt-swallowed"   \* a dotted path h.x gets left binding power 80
 DevNot  == "not-stmt-swallowed"       \* prefix-only `not` gets left binding power 70
 DevColon == "slice-colon-lost-after-dotpath"  \* lexical, see PrattTrace
-AllDevs == {DevPath, DevNot, DevColon}
+DevLabel == "ctl-label-any-symbol"    \* break/continue take ANY following symbol as their label
+AllDevs == {DevPath, DevNot, DevColon, DevLabel}
 
 (* Zlisp.LeftBindingPower *)
 LBP(t, D) ==
@@ -307,6 +331,13 @@ LBP(t, D) ==
       [] OTHER         -> 0         \* literals, symbols, if/for/break/continue/else, ;, calls, blocks
 
 SymbolKinds == {"sym", "path", "dot", "op", "kw", "label", "colon"}   \* tokens that are *SexpSymbol
+
+(* isLoopLabel: the token at q, directly after break/continue, is the label: a plain name
+   (no dotted path, not else, no word of the infix grammar) that the next token does not extend *)
+IsLabelAt(toks, q, D) ==
+    IF DevLabel \in D THEN toks[q][1] \in SymbolKinds
+    ELSE /\ toks[q][1] = "sym"
+         /\ (q + 1 > Len(toks) \/ LBP(toks[q+1], D) = 0)
 
 RECURSIVE PExpr(_, _, _, _), PLed(_, _, _, _, _), PIf(_, _, _), PFor(_, _, _, _), POne(_, _)
 
@@ -321,7 +352,7 @@ PExpr(toks, pos, rbp, D) ==
             ELSE IF IsKw(c, "if") THEN PIf(toks, pos + 1, D)
             ELSE IF IsKw(c, "for") THEN PFor(toks, pos + 1, "", D)
             ELSE IF IsKw(c, "break") \/ IsKw(c, "continue")
-            THEN (IF pos + 1 <= Len(toks) /\ toks[pos+1][1] \in SymbolKinds
+            THEN (IF pos + 1 <= Len(toks) /\ IsLabelAt(toks, pos + 1, D)
                   THEN [t |-> <<"ctl", c[2], toks[pos+1][2]>>, p |-> pos + 2]
                   ELSE [t |-> <<"ctl", c[2], "">>, p |-> pos + 1])
             ELSE [t |-> <<"atom", c>>, p |-> pos + 1]
